@@ -335,6 +335,12 @@ def constructed(a: int, b: int, c: int, data: bytes, flag: bool) -> bool:
     return deep_eq(exact, obj) and bytes(exact.compose()) == composed
 
 
+def sample_args(rng, kwargs):
+    return {'a': rng.choice([rng.randrange(0, 40), rng.randrange(0, 65536), P.get('ALO', 0) + rng.randrange(0, 16)]),
+            'b': rng.randrange(0, 20), 'c': rng.randrange(0, 3),
+            'data': bytes(rng.choice([97, 98, 48, 0, 255, 122, 32]) for _ in range(rng.randrange(0, 3)))}
+
+
 # kinds whose first argument indexes a large enum: sharded into index ranges (one symbolic dimension per shard)
 ENUM_SIZES = {
     'tls_cipher_suites': 'cryptodatahub.tls.algorithm.TlsCipherSuite',
